@@ -30,15 +30,16 @@ Algos == {"idpf-obf", "adobe-obf", "aes128", "aes256", "unknown"}
 EpubSpace == [ rights : BOOLEAN,
                enc    : SUBSET {"ch1", "ch2", "font", "font2", "font3", "img"},   \* ch1 = spine item *.xhtml, ch2 = spine item with an unusual suffix
                algo   : Algos,
-               uri    : {"plain", "upper", "dotslash"} ]
-NoEpub == [rights |-> FALSE, enc |-> {}, algo |-> "aes128", uri |-> "plain"]
+               uri    : {"plain", "upper", "dotslash"},
+               rfirst : BOOLEAN ]                       \* archive order of rights.xml relative to encryption.xml
+NoEpub == [rights |-> FALSE, enc |-> {}, algo |-> "aes128", uri |-> "plain", rfirst |-> TRUE]
 
 Init == \/ /\ mode = "admit" /\ kind \in Kinds /\ ext \in Exts /\ ecase \in {"lower", "upper", "mixed"}
            /\ order \in (IF kind \in Zips THEN {"canonical", "reversed", "decoyfirst"} ELSE {"canonical"})
            /\ decoy \in (IF kind \in Zips THEN {"none", "word", "xl", "ppt"} ELSE {"none"})
            /\ epub = NoEpub
         \/ /\ mode = "drm" /\ kind = "epub" /\ ext = "epub" /\ ecase = "lower" /\ order = "canonical" /\ decoy = "none"
-           /\ epub \in EpubSpace
+           /\ epub \in {e \in EpubSpace : (e.rights /\ e.enc # {}) \/ e.rfirst}      \* the order only exists when both files do
 Next == FALSE /\ UNCHANGED vars
 Spec == Init /\ [][Next]_vars
 
